@@ -85,3 +85,17 @@ def results(F, singletons=False):
     os.replace(tmp, path)
     with open(path) as fh:
         return json.load(fh)
+
+
+def crosscheck(F, res):
+    """thorough tier: the exhaustive per-kind enumeration must give the same verdicts as the partition refinement"""
+    a = results(F)
+    b = results(F, singletons=True)
+    va, vb = verdict_view(a), verdict_view(b)
+    diff = [k for k in va if va[k] != vb[k]]
+    res.ob("XC", "engine-P/per-kind-enumeration-agrees",
+           "interpreting the parser once per single current-token kind (%d contexts, %d abstract states) yields exactly the verdicts of the "
+           "kind-set partition refinement (%d contexts, %d states)" % (b["contexts"], b["states"], a["contexts"], a["states"]),
+           not diff, where="crates/syntax/src/parser.rs", how="all verdict tables equal" if not diff else "differ in %s" % diff)
+    res.analysed["crosscheck"] = {"partition": {"contexts": a["contexts"], "states": a["states"], "wall_s": a["wall_s"]},
+                                  "per_kind": {"contexts": b["contexts"], "states": b["states"], "wall_s": b["wall_s"]}}
